@@ -210,14 +210,14 @@ class C12(Check):
     def budget(self, tier):
         q = tier == 'quick'
         return {
-            'polygon': 1200 if q else 30000,
-            'centres': 500 if q else 12000,
-            'empty': 60 if q else 800,
-            'window': 500 if q else 12000,
-            'files': 260 if q else 5000,
-            'files_onecap': 80 if q else 1200,
-            'repo_fixtures': 12 if q else 160,
-            'use_caps': 2500 if q else 60000,
+            'polygon': 1600 if q else 40000,
+            'centres': 600 if q else 15000,
+            'empty': 80 if q else 1000,
+            'window': 600 if q else 15000,
+            'files': 300 if q else 6000,
+            'files_onecap': 80 if q else 1500,
+            'repo_fixtures': 16 if q else 160,
+            'use_caps': 3000 if q else 80000,
         }
 
     # ------------------------------------------------------------------ gen
